@@ -1,4 +1,6 @@
 import PersimVerif.Lemmas.Image
+import PersimVerif.Lemmas.ImageKernels
+import PersimVerif.Props.C13
 import Mathlib.MeasureTheory.Measure.Prod
 import Mathlib.MeasureTheory.Measure.Typeclasses.Finite
 import Mathlib.MeasureTheory.Measure.Dirac
@@ -17,7 +19,7 @@ Index convention proved below: the first matrix index runs over `_bpnts` (birth)
 `_ppnts` (persistence).
 -/
 namespace PersimVerif.C04
-open PersimVerif.Image MeasureTheory Set
+open PersimVerif.Image MeasureTheory Set ProbabilityTheory
 
 /-! ### birth–death → birth–persistence, weights -/
 
@@ -36,16 +38,30 @@ theorem persistence_weight_on_persistence {α : Type} [Sub α] (pow : α → α 
 section ramp
 variable {R : Type} [Field R] [LinearOrder R]
 
-/-- `linear_ramp`, the three branches -/
+/-- `linear_ramp`, the three branches.  The middle branch divides by `stop − start`; it is stated under
+    `start ≠ stop` (so `start < stop`, given `start ≤ p ≤ stop`), the guard under which the code's value is the
+    number the formula denotes.  For `start = stop = p` the code evaluates `0.0 * (high − low) / 0.0 = NaN`
+    (NumPy scalar division: a RuntimeWarning, no exception), whereas in a field `x / 0 = 0` would make the model's
+    value `low` — a totalisation artefact, not a claim about the code (`linearRamp_degenerate` records it).  The
+    `Float` instance of the same definition, which the driver runs, returns NaN like the code. -/
 theorem linearRamp_branches (low high start stop b p : R) :
     (p < start → linearRamp low high start stop (b, p) = low) ∧
     (start ≤ p → stop < p → linearRamp low high start stop (b, p) = high) ∧
-    (start ≤ p → p ≤ stop →
+    (start ≤ p → p ≤ stop → start ≠ stop →
       linearRamp low high start stop (b, p) = (p - start) * (high - low) / (stop - start) + low) := by
-  refine ⟨fun h => ?_, fun h1 h2 => ?_, fun h1 h2 => ?_⟩
+  refine ⟨fun h => ?_, fun h1 h2 => ?_, fun h1 h2 _ => ?_⟩
   · simp [linearRamp, h]
   · simp [linearRamp, not_lt.mpr h1, h2]
   · simp [linearRamp, not_lt.mpr h1, not_lt.mpr h2]
+
+/-- the degenerate ramp `start = stop`: below it `low`, above it `high`; AT the single point `p = start = stop` the
+    field-level model evaluates to `low` only because `x / 0 = 0` in a field — the code returns NaN there, so no
+    statement about the code is made for that input (the generators of the harness use `start < end`) -/
+theorem linearRamp_degenerate (low high c b p : R) :
+    (p < c → linearRamp low high c c (b, p) = low) ∧ (c < p → linearRamp low high c c (b, p) = high) ∧
+    linearRamp low high c c (b, c) = low := by
+  refine ⟨fun h => by simp [linearRamp, h], fun h => by simp [linearRamp, h, not_lt.mpr h.le], ?_⟩
+  simp [linearRamp]
 
 /-- the ramp is continuous at its two joints when `start < stop` -/
 theorem linearRamp_joints (low high start stop b : R) (h : start < stop) :
@@ -191,6 +207,110 @@ example [BEq ℝ] : ∀ (pt : Pt ℝ) (x y : ℝ),
       (fun pt x y => ((Measure.dirac pt) (Iic x ×ˢ Iic y)).toReal) pt x y
       = ((Measure.dirac pt) (Iic x ×ˢ Iic y)).toReal := fun _ _ _ => rfl
 
+/-! ### composition with C13: the built-in kernels that C13 proves to be CDFs
+
+`pixel_is_kernel_mass` has the hypothesis `hcdf` ("the kernel the code evaluates is the CDF of a finite measure").
+For the Gaussian kernel with ZERO covariance — on the isotropic fast path and on the general path — and for the
+uniform kernel, C13 proves exactly that (`C13.gaussian_zero_cov_is_bivariate_normal_cdf`, `C13.uniform_is_box_measure`),
+with `Φ` = Mathlib's standard normal CDF `C13.Φstd` and `sqrt = Real.sqrt`; `Lemmas/ImageKernels.lean` identifies the
+kernels of the two models by `rfl`.  So for these kernels the statement of C04 holds with NO kernel hypothesis:
+
+    pixel[i][j] = Σ_k w_k · (N(b_k, v_b) ⊗ N(p_k, v_p)) ((b_i, b_{i+1}] × (p_j, p_{j+1}])
+    pixel[i][j] = Σ_k w_k · λ²(pixel ∩ box_k) / (W·H)
+
+The CORRELATED Gaussian (`sigma[0][1] ≠ 0`, `bvn_cdf`) stays under the hypothesis `hcdf`: that `bvn_cdf` is the
+bivariate normal CDF is C13's unproved part (`C13.BvnIsAccurateValidCdf`), tested there and by the [T] density
+streams of this check. -/
+
+/-- the product of two real Gaussians centred at the birth–persistence point -/
+noncomputable def normalAt (vb vp : ℝ) (pt : Pt ℝ) : Measure (ℝ × ℝ) :=
+  (gaussianReal pt.1 vb.toNNReal).prod (gaussianReal pt.2 vp.toNNReal)
+
+instance (vb vp : ℝ) (pt : Pt ℝ) : IsFiniteMeasure (normalAt vb vp pt) := by
+  unfold normalAt; infer_instance
+
+theorem pixel_is_normal_mass_isotropic [BEq ℝ] (w : Pt ℝ → ℝ) (kc : KernelChoice ℝ) (F : Pt ℝ → ℝ → ℝ → ℝ)
+    {v : ℝ} (hv : 0 < v) (hkc : dispatch kc = .fast v)
+    {rx ry : Nat} {bs ps : List ℝ} (h : meshOk rx ry bs ps) (sk : Bool) (dgm : List (Pt ℝ)) :
+    ∃ img, transformOne Real.sqrt C13.Φstd w kc (vectorize F) rx ry bs ps sk dgm = .ok img ∧
+      ∀ (i j : Nat) (b0 b1 p0 p1 : ℝ),
+        bs[i]? = some b0 → bs[i + 1]? = some b1 → ps[j]? = some p0 → ps[j + 1]? = some p1 →
+        b0 ≤ b1 → p0 ≤ p1 →
+        pixel? img i j = some (((toBP sk dgm).map fun pt =>
+          w pt * ((normalAt v v pt) (Ioc b0 b1 ×ˢ Ioc p0 p1)).toReal).sum) := by
+  refine pixel_is_kernel_mass Real.sqrt C13.Φstd w kc F (normalAt v v) ?_ h sk dgm
+  intro pt x y
+  simp only [effKernel, hkc]
+  rw [prodKernel_eq_sbvn]
+  have := C13.gaussian_zero_cov_is_bivariate_normal_cdf pt.1 pt.2 hv hv (fun _ _ _ _ _ _ _ => 0) x y
+  rw [C13.gaussian_zero_cov_is_product] at this
+  exact this
+
+theorem pixel_is_normal_mass_diag [BEq ℝ] [LawfulBEq ℝ] (sqrt Φ : ℝ → ℝ) (w : Pt ℝ → ℝ) (kc : KernelChoice ℝ)
+    (bvn : ℝ → ℝ → ℝ → ℝ → ℝ → ℝ → ℝ → ℝ) {s00 s11 : ℝ} (h0 : 0 < s00) (h1 : 0 < s11)
+    (hkc : dispatch kc = .general)
+    {rx ry : Nat} {bs ps : List ℝ} (h : meshOk rx ry bs ps) (sk : Bool) (dgm : List (Pt ℝ)) :
+    ∃ img, transformOne sqrt Φ w kc
+        (vectorize fun pt x y => Kernels.gaussian C13.Φstd Real.sqrt bvn x y pt.1 pt.2 s00 s11 0)
+        rx ry bs ps sk dgm = .ok img ∧
+      ∀ (i j : Nat) (b0 b1 p0 p1 : ℝ),
+        bs[i]? = some b0 → bs[i + 1]? = some b1 → ps[j]? = some p0 → ps[j + 1]? = some p1 →
+        b0 ≤ b1 → p0 ≤ p1 →
+        pixel? img i j = some (((toBP sk dgm).map fun pt =>
+          w pt * ((normalAt s00 s11 pt) (Ioc b0 b1 ×ˢ Ioc p0 p1)).toReal).sum) := by
+  refine pixel_is_kernel_mass sqrt Φ w kc _ (normalAt s00 s11) ?_ h sk dgm
+  intro pt x y
+  simp only [effKernel, hkc]
+  rw [← prodKernel_eq_gaussian (beq_self_eq_true 0), prodKernel_eq_sbvn]
+  have := C13.gaussian_zero_cov_is_bivariate_normal_cdf pt.1 pt.2 h0 h1 (fun _ _ _ _ _ _ _ => 0) x y
+  rw [C13.gaussian_zero_cov_is_product] at this
+  exact this
+
+/-- the box of the uniform kernel centred at the birth–persistence point -/
+def boxAt (W H : ℝ) (pt : Pt ℝ) : Set (ℝ × ℝ) :=
+  Icc (pt.1 - W / 2) (pt.1 + W / 2) ×ˢ Icc (pt.2 - H / 2) (pt.2 + H / 2)
+
+/-- the uniform distribution on that box (Lebesgue measure restricted to it, over its area) -/
+noncomputable def uniformAt (W H : ℝ) (pt : Pt ℝ) : Measure (ℝ × ℝ) :=
+  (1 / (W * H)).toNNReal • (volume.restrict (boxAt W H pt))
+
+instance (W H : ℝ) (pt : Pt ℝ) : IsFiniteMeasure (uniformAt W H pt) := by
+  have : IsFiniteMeasure (volume.restrict (boxAt W H pt)) := by
+    refine ⟨?_⟩
+    rw [Measure.restrict_apply_univ, boxAt, Measure.volume_eq_prod, Measure.prod_prod, Real.volume_Icc, Real.volume_Icc]
+    exact ENNReal.mul_lt_top ENNReal.ofReal_lt_top ENNReal.ofReal_lt_top
+  unfold uniformAt; infer_instance
+
+theorem uniformAt_apply {W H : ℝ} (hW : 0 < W) (hH : 0 < H) (pt : Pt ℝ) {S : Set (ℝ × ℝ)} (hS : MeasurableSet S) :
+    ((uniformAt W H pt) S).toReal = (volume (S ∩ boxAt W H pt)).toReal / (W * H) := by
+  have hpos : 0 ≤ 1 / (W * H) := by positivity
+  rw [uniformAt, Measure.smul_apply, Measure.restrict_apply hS]
+  simp only [ENNReal.smul_def, smul_eq_mul, ENNReal.toReal_mul, ENNReal.coe_toReal, Real.coe_toNNReal _ hpos]
+  ring
+
+theorem pixel_is_box_mass [BEq ℝ] (sqrt Φ : ℝ → ℝ) (w : Pt ℝ → ℝ) (kc : KernelChoice ℝ)
+    {W H : ℝ} (hW : 0 < W) (hH : 0 < H) (hkc : dispatch kc = .general)
+    {rx ry : Nat} {bs ps : List ℝ} (h : meshOk rx ry bs ps) (sk : Bool) (dgm : List (Pt ℝ)) :
+    ∃ img, transformOne sqrt Φ w kc (vectorize (uniformKernel W H)) rx ry bs ps sk dgm = .ok img ∧
+      ∀ (i j : Nat) (b0 b1 p0 p1 : ℝ),
+        bs[i]? = some b0 → bs[i + 1]? = some b1 → ps[j]? = some p0 → ps[j + 1]? = some p1 →
+        b0 ≤ b1 → p0 ≤ p1 →
+        pixel? img i j = some (((toBP sk dgm).map fun pt =>
+          w pt * ((volume ((Ioc b0 b1 ×ˢ Ioc p0 p1) ∩ boxAt W H pt)).toReal / (W * H))).sum) := by
+  obtain ⟨img, h1, h2⟩ := pixel_is_kernel_mass sqrt Φ w kc (uniformKernel W H) (uniformAt W H) (by
+    intro pt x y
+    simp only [effKernel, hkc]
+    rw [uniformKernel_eq_uniform, C13.uniform_is_box_measure hW hH,
+      uniformAt_apply hW hH pt (measurableSet_Iic.prod measurableSet_Iic), Set.inter_comm]
+    rfl) h sk dgm
+  refine ⟨img, h1, ?_⟩
+  intro i j b0 b1 p0 p1 hb0 hb1 hp0 hp1 hb hp
+  rw [h2 i j b0 b1 p0 p1 hb0 hb1 hp0 hp1 hb hp]
+  congr 2
+  apply List.map_congr_left
+  intro pt _
+  rw [uniformAt_apply hW hH pt (measurableSet_Ioc.prod measurableSet_Ioc)]
+
 /-! ### the isotropic fast path -/
 
 section fast
@@ -293,5 +413,18 @@ example : dispatch (.gaussian (.matrix (1 : ℚ) (1 / 2) (1 / 2) 1)) = .general 
   norm_num [dispatch, Sigma.toMatrix]
 example : dispatch (.gaussian (.matrix (1 : ℚ) 0 0 2)) = .general := by
   norm_num [dispatch, Sigma.toMatrix]
+
+/-- non-vacuity of the hypotheses of `pixel_is_normal_mass_isotropic/_diag`, `pixel_is_box_mass` (canonical `BEq ℝ`, which is lawful): a scalar variance and the constructor's default identity matrix
+    take the fast path with a positive variance; unequal variances and any non-Gaussian choice take the general path;
+    positive box sides -/
+example : dispatch (.gaussian (.scalar (2 : ℝ))) = .fast 2 ∧ (0 : ℝ) < 2 :=
+  ⟨(dispatch_fast_iff _ _).mpr (Or.inl rfl), by norm_num⟩
+example : dispatch (.gaussian (.matrix (1 : ℝ) 0 0 1)) = .fast 1 :=
+  (dispatch_fast_iff _ _).mpr (Or.inr ⟨0, 0, 1, rfl, rfl, rfl⟩)
+example : dispatch (.gaussian (.matrix (1 : ℝ) 0 0 2)) = .general ∧ (0 : ℝ) < 1 ∧ (0 : ℝ) < 2 := by
+  refine ⟨?_, by norm_num, by norm_num⟩
+  simp [dispatch, Sigma.toMatrix]
+example : dispatch (KernelChoice.other : KernelChoice ℝ) = .general ∧ (0 : ℝ) < 3 ∧ (0 : ℝ) < 1 / 2 :=
+  ⟨rfl, by norm_num, by norm_num⟩
 
 end PersimVerif.C04
